@@ -630,6 +630,29 @@ fn message_texts(w: &mut Worker) {
     }
 }
 
+/// The latest error wins, whatever the two messages are: every ordered pair of a small pool that has the
+/// empty message, a message of blanks, one that repeats the other and ordinary ones.
+fn latest_wins(w: &mut Worker) {
+    let msgs = ["", " ", "first", "first failure", "0", "false", "Error", "{}", "é"];
+    for a in msgs {
+        for b in msgs {
+            for cmds in [("trigger_error", "trigger_error"), ("trigger_error", "assert_error"), ("assert_error", "trigger_error")] {
+                let text = format!(
+                    "{}\nea = get_last_error\nla = get_last_error_line\n{}\neb = get_last_error\nlb = get_last_error_line\ndone = set yes",
+                    crate::render::line(Some("oa"), cmds.0, &[a]),
+                    crate::render::line(Some("ob"), cmds.1, &[b])
+                );
+                scale_case(
+                    w,
+                    &format!("latest-wins {} {:?} then {} {:?}", cmds.0, a, cmds.1, b),
+                    &text,
+                    &[("oa", Some("false".into())), ("ob", Some("false".into())), ("ea", Some(a.to_string())), ("la", Some("1".into())), ("eb", Some(b.to_string())), ("lb", Some("4".into())), ("done", Some("yes".into()))],
+                );
+            }
+        }
+    }
+}
+
 /// An error that comes and goes: the condition of a loop that is already running reports an error in
 /// one of its evaluations (an unknown handle for that one evaluation) and answers normally again
 /// afterwards. The error is recorded with the line of the loop, the script goes on with the next
@@ -668,6 +691,7 @@ pub fn worker(w: &mut Worker) {
     scale(w);
     message_texts(w);
     transient_errors(w);
+    latest_wins(w);
     w.set_case_limit_ms(1_000);
     let real_msg = {
         let mut s = Session::new();
@@ -775,7 +799,7 @@ pub fn crash_sig(_case: &Value, kind: &str) -> String {
     kind.to_string()
 }
 
-pub const RULE: &str = "programs: every sequence of 1..k error sites, each site = context {top level, function body, for body, while body, if branch, else branch, inside a script-implemented library command, included file, a function called from a loop, a loop inside a function, as the condition of if / elseif / while and as the operand of not, inside a function that is called as the condition of an if or as the operand of not inside a for body} x error kind {trigger_error, assert_error with a message containing a space, a real failing command, a message containing the literal text ${x}, a failing script-implemented command} x lines in front of the site {none, a blank line, blank + comment, `set_error` + an `exit_on_error` query (statements that touch the error record and the mode without being errors)}; each site assigns an output variable and is followed by get_last_error / get_last_error_line / get_last_error_source probes; x exit_on_error schedule {never, on from the start, turned on after the first site, on then off before the first site} x run mode {text (included files named by absolute path), file, file that includes the file with the sites}. Oracle (error protocol): output variable 'false'; message, 1-based line and source file of the instruction the runner was executing (the caller's line for the script-implemented command, the included file's own path and line for included code); the latest error wins; the script reaches its last line and the enclosing blocks go on as written (a for body with two elements and a while body run twice, the else branch of an if whose then-branch failed does not run); under exit_on_error the run fails with Runtime(message, line, source) of the first error after it was turned on, and the text the failure is reported with contains that message and line. Scale cases: 300/3000 (thorough 30000) errors raised in a loop and on as many different lines (the latest wins, with its line), and a fatal error that far down after exit_on_error. Message texts: 36 awkward texts (format placeholders, percent signs, brackets, quotes, escapes, blanks at the ends, words that read as false, option look-alikes) x {trigger_error, assert_error} x {top level, inside a function, behind an alias} x {recorded, fatal}: the text comes back unchanged. evaluations = programs run. Transient errors: the condition of a running while loop (a command, an alias, a function) reports an error in its 2nd / 3rd / 4th evaluation only, flat and inside another loop: the body runs, the loop goes on to its natural end";
+pub const RULE: &str = "programs: every sequence of 1..k error sites, each site = context {top level, function body, for body, while body, if branch, else branch, inside a script-implemented library command, included file, a function called from a loop, a loop inside a function, as the condition of if / elseif / while and as the operand of not, inside a function that is called as the condition of an if or as the operand of not inside a for body} x error kind {trigger_error, assert_error with a message containing a space, a real failing command, a message containing the literal text ${x}, a failing script-implemented command} x lines in front of the site {none, a blank line, blank + comment, `set_error` + an `exit_on_error` query (statements that touch the error record and the mode without being errors)}; each site assigns an output variable and is followed by get_last_error / get_last_error_line / get_last_error_source probes; x exit_on_error schedule {never, on from the start, turned on after the first site, on then off before the first site} x run mode {text (included files named by absolute path), file, file that includes the file with the sites}. Oracle (error protocol): output variable 'false'; message, 1-based line and source file of the instruction the runner was executing (the caller's line for the script-implemented command, the included file's own path and line for included code); the latest error wins; the script reaches its last line and the enclosing blocks go on as written (a for body with two elements and a while body run twice, the else branch of an if whose then-branch failed does not run); under exit_on_error the run fails with Runtime(message, line, source) of the first error after it was turned on, and the text the failure is reported with contains that message and line. Scale cases: 300/3000 (thorough 30000) errors raised in a loop and on as many different lines (the latest wins, with its line), and a fatal error that far down after exit_on_error. Message texts: 36 awkward texts (format placeholders, percent signs, brackets, quotes, escapes, blanks at the ends, words that read as false, option look-alikes) x {trigger_error, assert_error} x {top level, inside a function, behind an alias} x {recorded, fatal}: the text comes back unchanged. evaluations = programs run. Transient errors: the condition of a running while loop (a command, an alias, a function) reports an error in its 2nd / 3rd / 4th evaluation only, flat and inside another loop: the body runs, the loop goes on to its natural end. Latest wins: every ordered pair of 9 messages (the empty one, a blank, one that repeats the other ...) x 3 pairs of commands: after the second error the queries show the second message and line";
 pub const ASSUMPTIONS: &[&str] = &["the message of the real failing command is taken from running that command alone (differential)", "a failing command in condition position makes the wrapping library command (if / elseif / while / not) report that error on its own line; the script then goes on with the next line, which is the first line of the body (what the body's own end / else lines do afterwards is not looked at: the generated blocks have no else and a while body leaves through goto)"];
 pub const EXHAUSTIVE: bool = true;
 pub const WALL_CAP_S: (u64, u64) = (55, 1500);
